@@ -293,6 +293,10 @@ pub enum Op {
     OverConsume {
         extra: u8,
     },
+    /// two write windows are taken out; the second one is committed in full and uses up the
+    /// room; a commit of 1 + extra (mod window) samples through the first, now stale, window is
+    /// larger than what the stream can honour and must be refused (terminal)
+    StaleOverCommit { extra: u8 },
     /// acquire a write window, fill `fill` samples, and keep the window open
     HoldWrite {
         fill: Sz,
@@ -364,6 +368,7 @@ pub fn ring_case_strategy(tag_heavy: bool, max_ops: usize) -> BoxedStrategy<Ring
         6 => Just(None),
         1 => any::<u8>().prop_map(|extra| Some(Op::OverCommit { extra })),
         1 => any::<u8>().prop_map(|extra| Some(Op::OverConsume { extra })),
+        1 => any::<u8>().prop_map(|extra| Some(Op::StaleOverCommit { extra })),
     ];
     (
         elem,
@@ -550,7 +555,7 @@ fn run_t<T: Elem>(pid: &str, case: &RingCase, focus: Focus, ctx: &mut Ctx) {
     let all_ops = case.ops.iter().chain(case.terminal.iter());
     for (opi, op) in all_ops.enumerate() {
         // one window per side: ops that would open a second one are skipped
-        let needs_w = matches!(op, Op::Write { .. } | Op::Commit0 | Op::OverCommit { .. } | Op::HoldWrite { .. });
+        let needs_w = matches!(op, Op::Write { .. } | Op::Commit0 | Op::OverCommit { .. } | Op::HoldWrite { .. } | Op::StaleOverCommit { .. });
         let needs_r = matches!(op, Op::Read { .. } | Op::Peek | Op::Consume0 | Op::OverConsume { .. } | Op::HoldRead);
         if (needs_w && held_w.is_some()) || (needs_r && held_r.is_some()) {
             continue;
@@ -709,6 +714,29 @@ fn run_t<T: Elem>(pid: &str, case: &RingCase, focus: Focus, ctx: &mut Ctx) {
                         return Err((
                             "over-commit-accepted".into(),
                             format!("op#{opi}: commit of {n} with only {} free was accepted", m.free()),
+                        ));
+                    }
+                    return Ok(true);
+                }
+                Op::StaleOverCommit { extra } => {
+                    if held_r.is_some() {
+                        // a stream allows at most four handles: both ends, and two windows
+                        return Ok(true);
+                    }
+                    let w1 = ring.write_buf().map_err(|e| ("write_buf-err".to_string(), format!("{e}")))?;
+                    let w2 = ring.write_buf().map_err(|e| ("write_buf-err".to_string(), format!("{e}")))?;
+                    let room = w2.len();
+                    if room == 0 || w1.len() != room {
+                        return Ok(true);
+                    }
+                    w2.produce(room, &[]);
+                    let n = 1 + (*extra as usize) % w1.len();
+                    ctx.class("stale-window-over-commit");
+                    let r = catch(|| w1.produce(n, &[]));
+                    if r.is_ok() {
+                        return Err((
+                            "over-commit-accepted".into(),
+                            format!("op#{opi}: a second write window committed all {room} free samples; a commit of {n} through the first window, with 0 free, was accepted"),
                         ));
                     }
                     return Ok(true);
